@@ -5,6 +5,7 @@ package main
 
 import (
 	"fmt"
+	"go/ast"
 	"sort"
 	"strings"
 
@@ -15,6 +16,8 @@ type unitSvc struct {
 	si     *svcInfo
 	gs     *goService
 	goName map[string]string // IDL function name -> Go method name (own functions)
+	base   *goService        // the interface the generated interface embeds, resolved among the scanned services (nil: none / not found)
+	shape  []string          // disagreements between the generated extends chain and the IDL's (oracle failures; the service is still driven)
 	leaked []string          // streaming functions (IDL names) that the processor registers although they must have been removed
 	note   string            // non-empty: not usable
 }
@@ -120,6 +123,97 @@ func matchServices(u *batch.UnitInfo, table []*svcInfo, scanned []*goService) []
 			us.note = fmt.Sprintf("interface %s has the methods %v, the IDL service has %d non-streaming functions", gs.iface, names, len(si.Own))
 		}
 	}
+	// the generated chain: which interface does each interface embed?
+	byGS := map[*goService]*unitSvc{}
+	for _, us := range out {
+		if us.gs != nil {
+			byGS[us.gs] = us
+		}
+	}
+	for _, us := range out {
+		if us.gs == nil || len(us.gs.embeds) != 1 {
+			continue
+		}
+		pkg, name := us.gs.pkg, ""
+		switch e := us.gs.embeds[0].(type) {
+		case *ast.Ident:
+			name = e.Name
+		case *ast.SelectorExpr:
+			if id, ok := e.X.(*ast.Ident); ok {
+				pkg, name = us.gs.imports[id.Name], e.Sel.Name
+			}
+		}
+		for _, gs := range scanned {
+			if gs.pkg == pkg && gs.iface == name {
+				us.base = gs
+			}
+		}
+	}
+	// extends: the generated interface must embed the interface of the IDL base (which may live in another file and may
+	// share its name with a service of this file), and its method set along the generated chain must be the union of
+	// the IDL chain's functions
+	for _, us := range out {
+		if us.note != "" || us.gs == nil {
+			continue
+		}
+		if us.si.Base >= 0 {
+			want := out[us.si.Base]
+			if want.gs != nil && us.base != want.gs {
+				got := "nothing that was generated for this unit"
+				if us.base != nil {
+					got = us.base.pkg + "." + us.base.iface
+					if o := byGS[us.base]; o != nil {
+						got += fmt.Sprintf(" (IDL service %s of %s)", o.si.Name, where(o.si.File))
+					}
+				}
+				us.shape = append(us.shape, fmt.Sprintf("service %s extends %s (declared in the %s), but the generated interface %s.%s embeds %s, not %s.%s",
+					us.si.Name, want.si.Name, where(want.si.File), us.gs.pkg, us.gs.iface, got, want.gs.pkg, want.gs.iface))
+			}
+		}
+		goSet, idlSet := map[string]bool{}, map[string]bool{}
+		for cur, n := us.gs, 0; cur != nil && n < 64; n++ {
+			for _, m := range cur.methods {
+				goSet[m.name] = true
+			}
+			if o := byGS[cur]; o != nil {
+				cur = o.base
+			} else {
+				cur = nil
+			}
+		}
+		complete := true
+		for cur := us; cur != nil; {
+			for _, g := range cur.goName {
+				idlSet[g] = true
+			}
+			if len(cur.goName) != len(cur.si.Own) {
+				complete = false
+			}
+			if cur.si.Base >= 0 {
+				cur = out[cur.si.Base]
+			} else {
+				cur = nil
+			}
+		}
+		if complete {
+			var miss, extra []string
+			for g := range idlSet {
+				if !goSet[g] {
+					miss = append(miss, g)
+				}
+			}
+			for g := range goSet {
+				if !idlSet[g] {
+					extra = append(extra, g)
+				}
+			}
+			sort.Strings(miss)
+			sort.Strings(extra)
+			if len(miss)+len(extra) > 0 && len(us.leaked) == 0 {
+				us.shape = append(us.shape, fmt.Sprintf("interface %s.%s (service %s): methods of the extends chain missing %v, not from the chain %v", us.gs.pkg, us.gs.iface, us.si.Name, miss, extra))
+			}
+		}
+	}
 	// a service is usable only if its whole chain is
 	for changed := true; changed; {
 		changed = false
@@ -144,17 +238,31 @@ func unitSource(u *batch.UnitInfo, svcs []*unitSvc) (string, error) {
 		hn := fmt.Sprintf("c08H_%s_%d", u.Key, us.si.Idx)
 		fmt.Fprintf(&body, "type %s struct{ core *c08Core }\n\n", hn)
 		var meths []string
-		for cur := us; cur != nil; {
-			byGo := map[string]string{}
-			for idl, g := range cur.goName {
-				byGo[g] = idl
+		byGS := map[*goService]*unitSvc{}
+		for _, o := range svcs {
+			if o.gs != nil {
+				byGS[o.gs] = o
 			}
-			for _, gm := range cur.gs.methods {
+		}
+		// handler methods: what the GENERATED interface chain demands (so that the glue compiles whatever was generated)
+		done := map[string]bool{}
+		for gcur, n := us.gs, 0; gcur != nil && n < 64; n++ {
+			byGo := map[string]string{}
+			if o := byGS[gcur]; o != nil {
+				for idl, g := range o.goName {
+					byGo[g] = idl
+				}
+			}
+			for _, gm := range gcur.methods {
+				if done[gm.name] {
+					continue
+				}
+				done[gm.name] = true
 				var ps, as []string
 				for i, p := range gm.params {
-					t, err := typeText(im, cur.gs, p)
+					t, err := typeText(im, gcur, p)
 					if err != nil {
-						return "", fmt.Errorf("%s.%s: %v", cur.gs.iface, gm.name, err)
+						return "", fmt.Errorf("%s.%s: %v", gcur.iface, gm.name, err)
 					}
 					ps = append(ps, fmt.Sprintf("a%d %s", i, t))
 					as = append(as, fmt.Sprintf("a%d", i))
@@ -168,16 +276,24 @@ func unitSource(u *batch.UnitInfo, svcs []*unitSvc) (string, error) {
 					fmt.Fprintf(&body, "func (h *%s) %s(%s) (err error) {\n\terr = h.core.handle(%q, []interface{}{%s}, nil)\n\treturn\n}\n\n",
 						hn, gm.name, sig, byGo[gm.name], strings.Join(as, ", "))
 				case 1:
-					t, err := typeText(im, cur.gs, gm.results[0])
+					t, err := typeText(im, gcur, gm.results[0])
 					if err != nil {
-						return "", fmt.Errorf("%s.%s: %v", cur.gs.iface, gm.name, err)
+						return "", fmt.Errorf("%s.%s: %v", gcur.iface, gm.name, err)
 					}
 					fmt.Fprintf(&body, "func (h *%s) %s(%s) (r %s, err error) {\n\terr = h.core.handle(%q, []interface{}{%s}, &r)\n\treturn\n}\n\n",
 						hn, gm.name, sig, t, byGo[gm.name], strings.Join(as, ", "))
 				default:
-					return "", fmt.Errorf("%s.%s: %d results", cur.gs.iface, gm.name, len(gm.results))
+					return "", fmt.Errorf("%s.%s: %d results", gcur.iface, gm.name, len(gm.results))
 				}
 			}
+			if o := byGS[gcur]; o != nil {
+				gcur = o.base
+			} else {
+				gcur = nil
+			}
+		}
+		// method table: the IDL chain (what the property promises to be callable)
+		for cur := us; cur != nil; {
 			for _, m := range cur.si.Own {
 				res := ""
 				if m.ResSidx >= 0 {
